@@ -562,6 +562,18 @@ func init() {
 	}
 	externals["runtime.Gosched"] = func(fr *frame, a []value) value { fr.i.yield(false); return nil }
 	externals["time.Sleep"] = func(fr *frame, a []value) value { fr.i.yield(false); return nil }
+	// Tickers and timers never fire within a run: the channel exists and stays empty.
+	// (wrgl uses them for progress reporting only; listed as a stub by the harnesses.)
+	newTick := func(fr *frame, a []value) value {
+		var v value = structure{&gchan{cap: 1}, true}
+		return &v
+	}
+	externals["time.NewTicker"] = newTick
+	externals["time.NewTimer"] = newTick
+	externals["(*time.Ticker).Stop"] = func(fr *frame, a []value) value { return nil }
+	externals["(*time.Ticker).Reset"] = func(fr *frame, a []value) value { return nil }
+	externals["(*time.Timer).Stop"] = func(fr *frame, a []value) value { return true }
+	externals["(*time.Timer).Reset"] = func(fr *frame, a []value) value { return true }
 }
 
 // reflect.Select over interpreted channels (recv cases and default only, which is
